@@ -244,3 +244,51 @@ Definition judge (args : list Z) : list Z :=
 
 Definition entry (sub : Z) (args : list Z) : list Z :=
   if sub =? 2 then judge args else entry0 sub args.
+
+(* ---- well-formed cases: the domain of the refinement theorem  judge (case ++ run_case case) = [1]  (Props/C01.v) ----
+   Syntactic part: 1 <= k <= 31, counter base >= 0, 0 <= fill <= 2^k, every program entry is one of the documented
+   operation codes, every schedule entry is >= 0 (a thread id; ids beyond the thread count are skipped by the run;
+   the negative "warp" pseudo-steps that replay the known finding F10 are EXCLUDED), and the schedule including the
+   completion tail has at most 2^32 entries (so that no counter can advance by 2^32 under a parked operation).
+   Termination part: every operation that was started must have returned by the end of the schedule, otherwise a result
+   is missing and the judge (rightly) rejects the history.  For programs without the unbounded loops PushWait(v,-1) /
+   PopWait(-1) and with at most 4 timed retries this is a theorem (the completion tail is long enough); for the
+   unbounded loops it depends on the schedule and is decided by running the model ([finishes]). *)
+Definition wf_op (x : Z) : bool :=
+  (x =? 0) || ((0 <? x) && (x <? 1000000)) || ((-3 <=? x) && (x <=? -1)) || (x =? -10) || (x <=? -100)
+  || ((1000000 <? x) && (x <? 2000000)) || ((2000000 <=? x) && (0 <? (x - 2000000) mod 10000)).
+Definition bounded_op (x : Z) : bool :=
+  negb (x =? -10) && negb ((1000000 <=? x) && (x <? 2000000)) && (tries_of x <=? 4).
+Definition finished (c : config) (rts : list rthread) : bool :=
+  forallb (fun p => match p with Idle => true | _ => false end) (ths c) && forallb (fun rt => r_wait rt =? 0) rts.
+Definition start_rts (progs : list (list Z)) : list rthread :=
+  map (fun pr => {| r_prog := pr; r_wait := 0; r_left := 0; r_yield := false; r_res := [] |}) progs.
+Definition finishes (args : list Z) : bool :=
+  match args with
+  | k :: bh :: bl :: fill :: nt :: r =>
+      let n := Z.to_nat nt in
+      let (progs, r1) := get_lists n r in
+      let (sched, _) := get_list r1 in
+      match go (seq_state k (bh * 2 ^ 32 + bl) fill n) (start_rts progs) (sched ++ completion n progs) [] with
+      | Some (c, rts', _) => finished c rts'
+      | None => false
+      end
+  | _ => false
+  end.
+Definition wf_syntax (args : list Z) : bool :=
+  match args with
+  | k :: bh :: bl :: fill :: nt :: r =>
+      let n := Z.to_nat nt in
+      let (progs, r1) := get_lists n r in
+      let (sched, _) := get_list r1 in
+      (1 <=? k) && (k <=? 31) && (0 <=? bh * 2 ^ 32 + bl) && (0 <=? fill) && (fill <=? 2 ^ k)
+      && forallb (forallb wf_op) progs && forallb (fun t => 0 <=? t) sched
+      && (Z.of_nat (length (sched ++ completion n progs)) <=? 2 ^ 32)
+  | _ => false
+  end.
+Definition all_bounded (args : list Z) : bool :=
+  match args with
+  | _ :: _ :: _ :: _ :: nt :: r => let (progs, _) := get_lists (Z.to_nat nt) r in forallb (forallb bounded_op) progs
+  | _ => false
+  end.
+Definition wf_case (args : list Z) : bool := wf_syntax args && (all_bounded args || finishes args).
